@@ -34,7 +34,7 @@ theorem C07_view_current (w : World V) (hw : MemoOK w) (ops : List (Op V)) (s fo
   refine ⟨hrun, ?_⟩
   obtain ⟨w', v, hv⟩ := viewAt_isSome form d hs
   have := (viewAt_spec hrun hv).1
-  simp only [step, doRead, hv, this]
+  simp only [step, doRead, readViewOf, hv, this]
 
 /-- the same from the fresh process -/
 theorem C07_view_current_init (ops : List (Op V)) (s form : Nat) (d : Int)
@@ -49,7 +49,7 @@ theorem C07_view_current_init (ops : List (Op V)) (s form : Nat) (d : Int)
     baseline still reads 600 -/
 example :
     let t : PNode Nat := .node [("basic_income", .param [⟨10, some 600⟩])]
-    let w0 : World Nat := ⟨[⟨some t, none⟩], []⟩
+    let w0 : World Nat := ⟨[t], [⟨some 0, none⟩], []⟩
     let f : PNode Nat → Except String (PNode Nat) := fun _ => .ok (.node [("basic_income", .param [⟨20, some 777⟩, ⟨10, some 600⟩])])
     let ops : List (Op Nat) := [.newReform 0, .readView 1 0 25 [], .modify 1 (pureMod f)]
     (step (run w0 ops) (.readView 1 0 25 ["basic_income"])).2 = .value (.ok (some (.val 777))) [] ∧
@@ -88,17 +88,11 @@ theorem C07_all_paths_agree (w : World V) (hw : MemoOK w) (s : Nat) (hs : s < w.
   obtain ⟨ht1, extra, ht2, _⟩ := navTraced_spec d ((PNode.node cs).atInstant d) path []
   refine ⟨navView ((PNode.node cs).atInstant d) path, (navTraced d ((PNode.node cs).atInstant d) path []).2,
     rfl, ?_, ?_, ?_, ?_, ?_⟩
-  · simp only [step, doRead, hv1, e1]
+  · simp only [step, doRead, readViewOf, hv1, e1]
   · simp only [step, doRead, hv2, e2, Bool.false_eq_true, if_false]
   · simp only [step, doRead, hv3, e3, if_true]
     rw [← ht1]
-  · have hr : ∃ r, w.systems[s]? = some r ∧ r.tree = some (.node cs) := by
-      unfold World.treeOf at ht
-      cases hr : w.systems[s]? with
-      | none => rw [hr] at ht; cases ht
-      | some r => rw [hr] at ht; exact ⟨r, rfl, ht⟩
-    obtain ⟨r, hr1, hr2⟩ := hr
-    simp only [step, doRead, hr1, hr2]
+  · simp only [step, doRead, List.getElem?_eq_getElem hs, ht]
   · have hat : (PNode.node cs).atInstant d = some (.node (childrenAt cs d)) := by simp [PNode.atInstant]
     obtain ⟨h1, h2⟩ := descend_agree (.node cs) hwf d _ hat path
     rw [hat]
@@ -265,17 +259,11 @@ theorem allRoutesRead_of (w : World V) (hw : MemoOK w) (s : Nat) (hs : s < w.sys
   rw [hsnap] at e1
   obtain ⟨ht1, extra, ht2, _⟩ := navTraced_spec d (t.atInstant d) path []
   refine ⟨?_, ?_, ⟨(navTraced d (t.atInstant d) path []).2, ?_⟩, ?_⟩
-  · simp only [step, doRead, hv1, e1]
+  · simp only [step, doRead, readViewOf, hv1, e1]
   · simp only [step, doRead, hv1, e1, Bool.false_eq_true, if_false]
   · simp only [step, doRead, hv1, e1, if_true]
     rw [← ht1]
-  · unfold World.treeOf at ht
-    cases hr : w.systems[s]? with
-    | none => rw [hr] at ht; cases ht
-    | some r =>
-      rw [hr] at ht
-      simp only at ht
-      simp only [step, doRead, hr, ht]
+  · simp only [step, doRead, List.getElem?_eq_getElem hs, ht]
 
 /-- `modify_parameters` is three sub-steps in the code's order — copy the reform's tree, run the
     modifier (which may read ANY system through ANY route and spelling, any number of times, each read
@@ -283,8 +271,8 @@ theorem allRoutesRead_of (w : World V) (hw : MemoOK w) (s : Nat) (hs : s < w.sys
     empty the memo. Whatever the modifier read on the way, once the modification completes the memo
     is empty, the state is sound, and every route of the reform — view in every spelling, formula,
     traced formula, parameter object — reads the NEW tree, at every date and path. -/
-theorem C07_modify_nested_reads (w : World V) (s b : Nat) (r : SysRec V) (t t' : PNode V)
-    (hr : w.systems[s]? = some r) (hb : r.baseline = some b) (ht : r.tree = some t)
+theorem C07_modify_nested_reads (w : World V) (hw : RefsOK w) (s b : Nat) (r : SysRec) (t t' : PNode V)
+    (hr : w.systems[s]? = some r) (hb : r.baseline = some b) (ht : w.treeOf s = some t)
     (f : PNode V → ModProg V) (w1 : World V) (hrun : runProg w (f t) = (w1, .ok t'))
     (hn : isNode t' = true) :
     (step w (.modify s f)).2 = .done ∧
@@ -292,35 +280,39 @@ theorem C07_modify_nested_reads (w : World V) (s b : Nat) (r : SysRec V) (t t' :
     (step w (.modify s f)).1.treeOf s = some t' ∧
     AllRoutesRead (step w (.modify s f)).1 s t' := by
   have hs := lt_of_get hr
-  have hsys : w1.systems = w.systems := by
-    have := runProg_systems w (f t); rw [hrun] at this; exact this
-  have hstep : step w (.modify s f) = ({ systems := setTree w1.systems s t', memo := [] }, .done) := by
+  have hfr := runProg_frame w (f t)
+  rw [hrun] at hfr
+  simp only at hfr
+  have hstep : step w (.modify s f) = (install w1 s t', .done) := by
     simp only [step, hr, hb, ht, hrun, hn, if_true]
   rw [hstep]
-  have htree : (⟨setTree w1.systems s t', []⟩ : World V).treeOf s = some t' :=
-    treeOf_setTree_eq w1.systems [] s t' (by rw [hsys]; exact hs)
-  refine ⟨rfl, rfl, memoOK_nil _, htree, ?_⟩
-  exact allRoutesRead_of _ (memoOK_nil _) s (by simp only [length_setTree, hsys]; exact hs) t' htree
+  have hs1 : s < w1.systems.length := by rw [hfr.1]; exact hs
+  have htree := treeOf_install_eq w1 s t' hs1
+  have hok := memoOK_install w1 (refsOK_congr hfr.1 hfr.2 hw) s t'
+  refine ⟨rfl, rfl, hok, htree, ?_⟩
+  exact allRoutesRead_of _ hok s (by rw [length_install]; exact hs1) t' htree
 
 /-- The same for `load_parameters`. No user code runs inside it except the system's
     `preprocess_parameters` hook (a plain caller cannot interleave a read with it); that hook runs on the
     freshly built tree BEFORE it is installed, and the memo is emptied after the installation: whatever
     the hook read, every route reads the new tree afterwards. -/
-theorem C07_reload_nested_reads (w : World V) (s : Nat) (hs : s < w.systems.length)
+theorem C07_reload_nested_reads (w : World V) (hw : RefsOK w) (s : Nat) (hs : s < w.systems.length)
     (cs : List (String × PNode V)) (hook : PNode V → ModProg V) (w1 : World V) (t' : PNode V)
     (hrun : runProg w (hook (.node cs)) = (w1, .ok t')) :
     (step w (.reload s cs hook)).1.memo = [] ∧ MemoOK (step w (.reload s cs hook)).1 ∧
     (step w (.reload s cs hook)).1.treeOf s = some t' ∧
     AllRoutesRead (step w (.reload s cs hook)).1 s t' := by
-  have hsys : w1.systems = w.systems := by
-    have := runProg_systems w (hook (.node cs)); rw [hrun] at this; exact this
-  have hstep : step w (.reload s cs hook) = ({ systems := setTree w1.systems s t', memo := [] }, .done) := by
+  have hfr := runProg_frame w (hook (.node cs))
+  rw [hrun] at hfr
+  simp only at hfr
+  have hstep : step w (.reload s cs hook) = (install w1 s t', .done) := by
     simp only [step, List.getElem?_eq_getElem hs, hrun]
   rw [hstep]
-  have htree : (⟨setTree w1.systems s t', []⟩ : World V).treeOf s = some t' :=
-    treeOf_setTree_eq w1.systems [] s t' (by rw [hsys]; exact hs)
-  refine ⟨rfl, memoOK_nil _, htree, ?_⟩
-  exact allRoutesRead_of _ (memoOK_nil _) s (by simp only [length_setTree, hsys]; exact hs) t' htree
+  have hs1 : s < w1.systems.length := by rw [hfr.1]; exact hs
+  have htree := treeOf_install_eq w1 s t' hs1
+  have hok := memoOK_install w1 (refsOK_congr hfr.1 hfr.2 hw) s t'
+  refine ⟨rfl, hok, htree, ?_⟩
+  exact allRoutesRead_of _ hok s (by rw [length_install]; exact hs1) t' htree
 
 /-- While the modifier runs, every system — the reform included — still has the tree it had at entry,
     and that is what the modifier's reads return: after any number of nested reads the state is still
@@ -333,16 +325,15 @@ theorem C07_nested_read_sees_former_tree (w : World V) (hw : MemoOK w) (p : ModP
   refine ⟨h1, h2, ?_⟩
   obtain ⟨w', v, hv⟩ := viewAt_isSome (w := (runProg w p).1) form d (by rw [h2]; exact hs)
   have := (viewAt_spec h1 hv).1
-  rw [treeOf_congr h2] at this
-  simp only [doRead, hv, this]
+  rw [treeOf_congr h2 (runProg_frame w p).2] at this
+  simp only [doRead, readViewOf, hv, this]
 
 /-- A modifier that looks up the value in force through the reform's own view, then raises it: 7
     while it runs, 70 through every route once it is done — and the order of the sub-steps matters:
     emptying the memo BEFORE running the modifier (`stepClearFirst`) leaves the view read by the
     modifier in the memo, and the same read gives the stale 7 after the modification. -/
 example :
-    let w0 : World Nat := ⟨[⟨some (.node [("x", .param [⟨10, some 7⟩])]), none⟩,
-                           ⟨some (.node [("x", .param [⟨10, some 7⟩])]), some 0⟩], []⟩
+    let w0 : World Nat := ⟨[.node [("x", .param [⟨10, some 7⟩])]], [⟨some 0, none⟩, ⟨some 0, some 0⟩], []⟩
     let f : PNode Nat → ModProg Nat := fun _ =>
       .read (.view 1 0 12 ["x"]) (fun _ => .ret (.ok (.node [("x", .param [⟨10, some 70⟩])])))
     (step (step w0 (.modify 1 f)).1 (.readView 1 0 12 ["x"])).2 = .value (.ok (some (.val 70))) [] ∧
@@ -353,21 +344,108 @@ example :
     (step (stepClearFirst w0 1 f) (.readTree 1 ["x"] 12)).2 = .value (.ok (some (.val 70))) [] :=
   ⟨rfl, rfl, rfl, rfl, rfl⟩
 
+/-! ## `load_extension`: a tree object changed in place; the root baseline's view -/
+
+/-- `ParameterNode.merge` completes exactly when no merged name is already present (nor repeated), and
+    then the children are the former ones followed by the merged ones; when it stops, what it added
+    before stays. -/
+theorem C07_merge_spec (cs ext : List (String × PNode V)) :
+    ((∀ p ∈ ext, assoc p.1 cs = none) → (ext.map (·.1)).Nodup → mergeInto cs ext = (cs ++ ext, true)) ∧
+    (∃ pre, (mergeInto cs ext).1 = cs ++ pre ∧ pre <+: ext) := by
+  induction ext generalizing cs with
+  | nil => exact ⟨fun _ _ => by simp [mergeInto], [], by simp [mergeInto], List.prefix_refl _⟩
+  | cons p r ih =>
+    obtain ⟨k, c⟩ := p
+    constructor
+    · intro hfree hnd
+      have hk : assoc k cs = none := hfree (k, c) (List.mem_cons_self ..)
+      simp only [List.map_cons, List.nodup_cons] at hnd
+      simp only [mergeInto, hk, Option.isSome_none, Bool.false_eq_true, if_false]
+      rw [(ih (cs ++ [(k, c)])).1 ?_ hnd.2]
+      · simp
+      · intro q hq
+        rw [assoc_append_single, hfree q (List.mem_cons_of_mem _ hq)]
+        simp only
+        rw [if_neg]
+        intro hkq
+        exact hnd.1 (List.mem_map.mpr ⟨q, hq, hkq.symm⟩)
+    · simp only [mergeInto]
+      by_cases hk : (assoc k cs).isSome = true
+      · rw [if_pos hk]; exact ⟨[], by simp, List.nil_prefix⟩
+      · rw [if_neg hk]
+        obtain ⟨pre, h1, h2⟩ := (ih (cs ++ [(k, c)])).2
+        exact ⟨(k, c) :: pre, by rw [h1]; simp, by simpa using h2⟩
+
+/-- `load_extension` merges into the tree OBJECT, after emptying the memo: whatever the outcome of the
+    merge — completed, or stopped half-way by a name conflict, which has already changed the object —
+    the state is sound afterwards, so every route of EVERY system (the systems that share the object
+    included) reads that system's current tree. -/
+theorem C07_extend_reads_current (w : World V) (hw : MemoOK w) (s : Nat) (ext : List (String × PNode V)) :
+    MemoOK (step w (.extend s ext)).1 ∧
+    (s < w.systems.length → (step w (.extend s ext)).1.memo = []) ∧
+    ∀ s' t, s' < (step w (.extend s ext)).1.systems.length → (step w (.extend s ext)).1.treeOf s' = some t →
+      AllRoutesRead (step w (.extend s ext)).1 s' t := by
+  have hok := step_memoOK w hw (.extend s ext)
+  refine ⟨hok, ?_, fun s' t hs' ht => allRoutesRead_of _ hok s' hs' t ht⟩
+  intro hs
+  simp only [step, List.getElem?_eq_getElem hs]
+  cases w.systems[s].tree with
+  | none => rfl
+  | some i =>
+    simp only
+    cases w.heap[i]? with
+    | none => rfl
+    | some t =>
+      cases t with
+      | param l => rfl
+      | scale m bs => rfl
+      | node cs => rfl
+
+/-- A reform that has not replaced its tree refers to its baseline's object: an extension loaded on the
+    baseline after both views were read shows through every route of both; once the reform has run a
+    modifier it has its own object and no longer follows. A conflicting extension (`x` exists) stops,
+    having added `a` — and the views still follow the tree. -/
+example :
+    let w0 : World Nat := ⟨[.node [("x", .param [⟨10, some 7⟩])]], [⟨some 0, none⟩, ⟨some 0, some 0⟩], []⟩
+    let ext : List (String × PNode Nat) := [("a", .param [⟨10, some 1⟩]), ("x", .param [⟨10, some 2⟩]), ("b", .param [⟨10, some 3⟩])]
+    let f : PNode Nat → ModProg Nat := pureMod (fun t => .ok t)
+    let ops : List (Op Nat) := [.readView 0 0 12 [], .readView 1 0 12 [], .extend 0 ext]
+    (step (run w0 ops) (.readView 1 0 12 ["a"])).2 = .value (.ok (some (.val 1))) [] ∧
+    (step (run w0 ops) (.readView 0 0 12 ["a"])).2 = .value (.ok (some (.val 1))) [] ∧
+    (step (run w0 ops) (.readView 0 0 12 ["x"])).2 = .value (.ok (some (.val 7))) [] ∧
+    (step (run w0 ops) (.readView 0 0 12 ["b"])).2 = .value (.error "ParameterNotFoundError") [] ∧
+    (step (run w0 (.modify 1 f :: ops)) (.readView 1 0 12 ["a"])).2 = .value (.error "ParameterNotFoundError") [] ∧
+    (step (run w0 (.modify 1 f :: ops)) (.readTree 1 ["a"] 12)).2 = .value (.error "AttributeError") [] :=
+  ⟨rfl, rfl, rfl, rfl, rfl, rfl⟩
+
+/-- `_get_baseline_parameters_at_instant` is the view of the root of the chain of baselines: it reads
+    that system's current tree. -/
+theorem C07_base_view (w : World V) (hw : MemoOK w) (s form : Nat) (d : Int) (path : List String)
+    (hroot : rootOf w.systems w.systems.length s < w.systems.length) :
+    (step w (.read (.baseView s form d path))).2
+      = .value (navView (snapshot (w.treeOf (rootOf w.systems w.systems.length s)) d) path) [] := by
+  obtain ⟨w', v, hv⟩ := viewAt_isSome form d hroot
+  have := (viewAt_spec hw hv).1
+  simp only [step, doRead, readViewOf, hv, this]
+
+example : rootOf [⟨some 0, none⟩, ⟨some 0, some 0⟩, ⟨some 1, some 1⟩] 3 2 = 0 := by decide
+
 /-! ## A reform's modifications leave every other system alone -/
 
 /-- Whatever is done through reforms — creating them, running any modifier functions on them,
     reloading them, reading anything anywhere — as long as no operation of the history replaces the
-    tree of system `b` itself, `b` keeps its tree and every read of `b` after the history returns what
-    the same read returns before it. -/
+    tree of system `b` itself, nor changes a tree object in place (`load_extension` on a system that
+    still shares `b`'s object WOULD show in `b`: see the example after `C07_extend_reads_current`), `b`
+    keeps its tree and every read of `b` after the history returns what the same read returns before it. -/
 theorem C07_reform_isolated (w : World V) (hw : MemoOK w) (ops : List (Op V)) (b : Nat)
-    (hb : b < w.systems.length) (hops : ∀ op ∈ ops, op.target ≠ some b)
+    (hb : b < w.systems.length) (hops : ∀ op ∈ ops, op.target ≠ some b ∧ op.inPlace = false)
     (form form' : Nat) (d : Int) (path : List String) :
     (run w ops).treeOf b = w.treeOf b ∧
     (step (run w ops) (.readView b form d path)).2 = (step w (.readView b form' d path)).2 ∧
     (step (run w ops) (.readTree b path d)).2 = (step w (.readTree b path d)).2 ∧
     (∀ traced, (step (run w ops) (.readFormula b traced form d path)).2
         = (step w (.readFormula b traced form' d path)).2) := by
-  obtain ⟨htree, hlen⟩ := run_treeOf_other w ops b hb hops
+  obtain ⟨htree, hlen⟩ := run_treeOf_other w hw ops b hb hops
   have hrun := run_memoOK w hw ops
   refine ⟨htree, ?_, ?_, ?_⟩
   · rw [(C07_view_current w hw ops b form d path hlen).2, htree]
@@ -377,12 +455,8 @@ theorem C07_reform_isolated (w : World V) (hw : MemoOK w) (ops : List (Op V)) (b
   · have key : ∀ w' : World V, w'.treeOf b = w.treeOf b → b < w'.systems.length →
         (step w' (.readTree b path d)).2 = (step w (.readTree b path d)).2 := by
       intro w' h1 h2
-      unfold World.treeOf at h1
-      simp only [step, doRead]
-      rw [List.getElem?_eq_getElem h2, List.getElem?_eq_getElem hb] at h1 ⊢
-      simp only at h1 ⊢
-      rw [h1]
-      cases w.systems[b].tree <;> rfl
+      simp only [step, doRead, List.getElem?_eq_getElem h2, List.getElem?_eq_getElem hb, h1]
+      cases w.treeOf b <;> rfl
     exact key _ htree hlen
   · intro traced
     obtain ⟨w1, v1, hv1⟩ := viewAt_isSome form d hlen
@@ -396,13 +470,13 @@ theorem C07_reform_isolated (w : World V) (hw : MemoOK w) (ops : List (Op V)) (b
 example :
     let f : PNode Nat → Except String (PNode Nat) := fun _ => .ok (.node [("x", .param [⟨10, some 70⟩])])
     ∀ op ∈ ([.newReform 0, .readView 0 0 12 [], .modify 1 (pureMod f), .reload 1 [] noHook, .readView 1 0 12 []] : List (Op Nat)),
-      op.target ≠ some 0 := by
+      op.target ≠ some 0 ∧ op.inPlace = false := by
   intro f op hop
   simp only [List.mem_cons, List.not_mem_nil, or_false] at hop
-  rcases hop with rfl | rfl | rfl | rfl | rfl <;> simp [Op.target]
+  rcases hop with rfl | rfl | rfl | rfl | rfl <;> simp [Op.target, Op.inPlace]
 /-- the baseline was read before the reform's modifier ran; it still reads 7, the reform reads 70 -/
 example :
-    let w0 : World Nat := ⟨[⟨some (.node [("x", .param [⟨10, some 7⟩])]), none⟩], []⟩
+    let w0 : World Nat := ⟨[.node [("x", .param [⟨10, some 7⟩])]], [⟨some 0, none⟩], []⟩
     let f : PNode Nat → Except String (PNode Nat) := fun _ => .ok (.node [("x", .param [⟨10, some 70⟩])])
     let ops : List (Op Nat) := [.newReform 0, .readView 0 0 12 [], .modify 1 (pureMod f)]
     (step (run w0 ops) (.readView 0 0 12 ["x"])).2 = .value (.ok (some (.val 7))) [] ∧
@@ -424,4 +498,7 @@ end OFCore
 #print axioms OFCore.C07_modify_nested_reads
 #print axioms OFCore.C07_reload_nested_reads
 #print axioms OFCore.C07_nested_read_sees_former_tree
+#print axioms OFCore.C07_merge_spec
+#print axioms OFCore.C07_extend_reads_current
+#print axioms OFCore.C07_base_view
 #print axioms OFCore.C07_reform_isolated
